@@ -9,7 +9,7 @@ def jobs(tier):
              timeout=900, require_tags={'end': 1, 'accept': 1, 'must-impute': 1}),
         dict(name='all-tables-s1-m1', harness=H, entry='main_c03', defines=dict(NN=3, NE=2, NE_MIN=1, NS=1, NM=1, TP_HI=0, SP_HI=1),
              timeout=900, require_tags={'end': 1, 'accept': 1, 'must-impute': 1}),
-        dict(name='user-alleles-fixed-table', harness=H, entry='main_c03', defines=dict(NN=4, NE=4, NS=2, NM=2, FIXED_TABLE=1, USER_ALLELES=1),
+        dict(name='user-alleles-fixed-table', harness=H, entry='main_c03', defines=dict(NN=4, NE=4, NS=1, NM=2, FIXED_TABLE=1, USER_ALLELES=1),
              timeout=900, require_tags={'end': 1, 'accept': 1, 'allele-not-found': 1}),
     ]
     if tier == 'quick':
@@ -32,7 +32,7 @@ BOUNDS = {
              'sample profiles) with 1 site and 1 mutation; sites fall in gaps, on breakpoints and above roots (site, node and '
              'derived state from {"C", ""} then {"A" (back mutation), "C"}, parents from the real compute_mutation_parents); default '
              'samples, explicit reversed all-nodes list, explicit reversed samples (traversal path); '
-             'isolated_as_missing on/off; decode orders (0,1,0) and (1,0) on one Variant; restricted_copy; (c) the fixed table with four user allele lists (reordered, missing a derived allele, missing the ancestral allele, with an unused allele): genotypes index the user list, a missing allele is TSK_ERR_ALLELE_NOT_FOUND',
+             'isolated_as_missing on/off; decode orders (0,1,0) and (1,0) on one Variant; restricted_copy; (c) the fixed table (one site, 2 mutations) with four user allele lists (reordered, missing a derived allele, missing the ancestral allele, with an unused allele): genotypes index the user list, a missing allele is TSK_ERR_ALLELE_NOT_FOUND',
     'thorough': 'plus 4 nodes / 3 edges and 3 mutations (time-boxed)',
 }
 OUTSIDE = ['genotype_matrix / haplotypes / alignments assembly in Python (numpy)', 'user allele lists other than the four enumerated ones',
